@@ -186,12 +186,30 @@ class InRamPolicySupporter(policy_supporter.PolicySupporter):
         vz.MetricType.OBJECTIVE):
       raise ValueError('Requires at least one objective metric.')
 
+    # Only feasible completed trials that report every objective can be best.
+    objective_names = [
+        m.name
+        for m in self.study_config.metric_information.of_type(
+            vz.MetricType.OBJECTIVE
+        )
+    ]
+    candidates = [
+        t
+        for t in self.trials
+        if t.status == vz.TrialStatus.COMPLETED
+        and not t.infeasible
+        and t.final_measurement is not None
+        and all(name in t.final_measurement.metrics for name in objective_names)
+    ]
+    if not candidates:
+      return []
+
     # Add safety warping and remove safety metrics from conversion.
     safety_checker = multimetric.SafetyChecker(
         self.study_config.metric_information
     )
     warped_trials = safety_checker.warp_unsafe_trials(
-        copy.deepcopy(self.trials)
+        copy.deepcopy(candidates)
     )
     config_without_safe = copy.deepcopy(self.study_config)
     config_without_safe.metric_information = (
@@ -205,16 +223,19 @@ class InRamPolicySupporter(policy_supporter.PolicySupporter):
 
     if self.study_config.is_single_objective:
       # Single metric: Sort and take top N.
-      count = count or 1  # Defaults to 1.
-      labels = converter.to_labels(warped_trials).squeeze()
+      labels = converter.to_labels(warped_trials).reshape(-1)
+      if count is None:
+        # All tied top trials.
+        count = int(np.sum(labels == np.max(labels)))
       sorted_idx = np.argsort(-labels)  # np.argsort sorts in ascending order.
-      return list(np.asarray(self.trials)[sorted_idx[:count]])
+      return [candidates[i] for i in sorted_idx[:count]]
     else:
       algorithm = multimetric.FastParetoOptimalAlgorithm()
       is_optimal = algorithm.is_pareto_optimal(
           points=converter.to_labels(warped_trials)
       )
-      return list(np.asarray(self.trials)[is_optimal][:count])
+      optimal = [t for t, b in zip(candidates, is_optimal) if b]
+      return optimal[:count]
 
   def SetPriorStudy(
       self, study: vz.ProblemAndTrials, study_guid: Optional[str] = None
